@@ -111,8 +111,13 @@ def run(chk, prog, tier):
     env = Env(prog)
     c02.check_gate(chk, prog, env, rulename='C09.size-gate')
     check_eddsa_gate(chk, prog, env)
-    # provenance of bits
-    chk.assumptions.append('item->bits is 8*len for oct keys and OpenSSL\'s EVP_PKEY BITS parameter otherwise (checked by C08 rule bits-provenance)')
+    # provenance of the number the floor is compared against (rules shared with C08)
+    from props import c08
+    from model import build_model
+    model = build_model()
+    chk.guard('bits provenance', c08.check_bits_provenance, chk, prog, env, model, rulename='C09.bits-provenance')
+    chk.guard('oct bits', c08.check_metadata, chk, prog, env, model)
+    chk.assumptions.append('that OpenSSL\'s "bits" parameter is the modulus / field size of the imported key is trusted')
     return chk.finish(
         'Decision table of jwt_sign and jwt_verify_sig over alg 16 x key type 5 x 21 representative bit counts (every threshold of '
         'the code and of the oracle, +-1): a provider entry point is reached only when the size rule of the algorithm holds and the '
